@@ -360,3 +360,177 @@ def run(case):
         asyncio.set_event_loop(None)
         loop.close()
     return viol, info
+
+
+# ------------------------------------------------------------------ client connection
+def gen_client(rng, i):
+    """the client side of the same question: real client_proto.ResponseHandler (it overrides pause_reading /
+    resume_reading) + real HttpResponseParser; a response body several times the high-water mark as HTTP chunks,
+    gzip/deflate-coded, Content-Length or close-delimited, delivered only while the transport reads"""
+    rb = rng.choice([16, 16, 64, 256])
+    high = 2 * rb
+    coding = rng.choice(["", "", "gzip", "deflate"])
+    framing = rng.choice(["chunked", "chunked", "length", "eof"])
+    total = rng.choice([1, rb, high + 1, 6 * high, 24 * high + 3]) * (rng.choice([1, 4]) if coding else 1)
+    case = {"kind": "client", "rb": rb, "total": total, "framing": framing, "coding": coding,
+            "chunk": rng.choice([1, rb // 2, rb, high]),
+            "reader": rng.choice(["small-n", "small-n", "all-n", "chunks", "all", "line", "iter-chunks"])}
+    _, wire = wire_of(dict(case, framing="length" if framing == "eof" else framing), body_bytes(total))
+    w = len(wire)
+    case["segs"] = [rng.choice([w, w, max(1, w // 2), 1, 7, rb, high + 1]) for _ in range(6)]
+    case["read_first"] = rng.random() < 0.5          # the application starts reading before / after the first delivery
+    return case
+
+
+CLIENT_DIRECTED = [
+    {"kind": "client", "rb": 16, "total": 384, "framing": "chunked", "coding": "", "chunk": 16, "reader": "small-n",
+     "segs": [10 ** 6], "read_first": False},
+    {"kind": "client", "rb": 16, "total": 3000, "framing": "length", "coding": "gzip", "chunk": 16, "reader": "small-n",
+     "segs": [10 ** 6], "read_first": False},
+    {"kind": "client", "rb": 16, "total": 200, "framing": "eof", "coding": "", "chunk": 16, "reader": "all-n",
+     "segs": [33, 33, 200], "read_first": True},
+]
+
+
+def run_client(case):
+    from aiohttp.client_proto import ResponseHandler
+    viol, info = [], {"steps": 0, "max_buffered_over_high": 0, "pauses": 0}
+
+    def v(sig, detail):
+        if not any(s == sig for s, _ in viol):
+            viol.append((sig, detail))
+
+    async def main():
+        loop = asyncio.get_running_loop()
+        body = body_bytes(case["total"])
+        eof_framed = case["framing"] == "eof"
+        hdr, wire = wire_of(dict(case, framing="length" if eof_framed else case["framing"]), body)
+        if eof_framed:
+            hdr = b"".join(l + b"\r\n" for l in hdr.split(b"\r\n") if l and not l.startswith(b"Content-Length"))
+        head = b"HTTP/1.1 200 OK\r\n" + hdr + b"\r\n"
+        proto = ResponseHandler(loop)
+        tr = Tr()
+        proto.connection_made(tr)
+        proto.set_response_params(read_bufsize=case["rb"], read_until_eof=eof_framed)
+        st = {"read": bytearray(), "done": False, "err": None, "payload": None}
+        sent = [0]
+        wtotal = len(wire)
+        closed = [False]
+
+        def check(where):
+            info["steps"] += 1
+            p = st["payload"]
+            if p is None or proto.transport is None or closed[0]:
+                return
+            if not p.is_eof():
+                low, high = p.get_read_buffer_limits()
+                buffered = p._size
+                if buffered > high:
+                    info["max_buffered_over_high"] = max(info["max_buffered_over_high"], buffered - high)
+                    if not tr.paused:
+                        v("C08/backpressure/not-paused-above-high-water/client-connection/"
+                          + ("stream-flag-still-set" if proto._reading_paused else "stream-flag-cleared"),
+                          f"{where}: response body stream holds {buffered} bytes > high water {high}, "
+                          f"_reading_paused={proto._reading_paused}, but the transport is reading (calls {''.join(tr.calls)})")
+            w = getattr(p, "_waiter", None)
+            if w is not None and not w.done() and not st["done"] and tr.paused:
+                v("C08/stuck-pause/client-connection",
+                  f"{where}: reader parked on the empty response body buffer ({len(st['read'])} of {case['total']} read, "
+                  f"{sent[0]} of {wtotal} wire bytes delivered) with the transport paused (_reading_paused={proto._reading_paused})")
+
+        async def reader():
+            try:
+                msg, p = await proto.read()
+                st["payload"] = p
+                how = case["reader"]
+                k = {"small-n": max(1, case["rb"] // 2), "all-n": case["rb"]}.get(how)
+                if k:
+                    while True:
+                        d = await p.read(k)
+                        if not d: break
+                        st["read"] += d; check("in-read")
+                elif how == "all":
+                    st["read"] += await p.read()
+                elif how == "line":
+                    while True:
+                        d = await p.readuntil(b"A", max_size=10 ** 9)
+                        if not d: break
+                        st["read"] += d; check("in-read")
+                elif how == "iter-chunks":
+                    async for d, _ in p.iter_chunks():
+                        st["read"] += d; check("in-read")
+                else:
+                    async for d in p.iter_any():
+                        st["read"] += d; check("in-read")
+            except Exception as e:  # noqa
+                st["err"] = type(e).__name__
+            st["done"] = True
+
+        async def settle():
+            last, same = None, 0
+            for _ in range(2000):
+                await asyncio.sleep(0)
+                cur = (len(st["read"]), len(tr.calls), st["done"], st["payload"] is not None)
+                same = same + 1 if cur == last else 0
+                last = cur
+                if same >= 5:
+                    break
+
+        task = None
+        if case.get("read_first"):
+            task = asyncio.ensure_future(reader()); await settle()
+        proto.data_received(head)
+        segs = list(case["segs"])
+        for rounds in range(4000):
+            await settle(); check("after-delivery")
+            if task is None:
+                task = asyncio.ensure_future(reader()); await settle(); check("after-reader-start")
+            if st["done"] or proto.transport is None:
+                break
+            if tr.paused:
+                # nothing arrives while paused; if the reader cannot move either, the stuck clause has fired
+                if getattr(st["payload"], "_waiter", None) is not None:
+                    break
+                continue
+            if sent[0] < wtotal:
+                k = segs.pop(0) if segs else wtotal - sent[0]
+                proto.data_received(wire[sent[0]:sent[0] + k]); sent[0] += k
+            elif eof_framed and not closed[0]:
+                closed[0] = True
+                proto.connection_lost(None)
+            else:
+                break
+        await settle(); check("end")
+        got = bytes(st["read"])
+        info["pauses"] = tr.calls.count("P"); info["read"] = len(got); info["done"] = st["done"]; info["err"] = st["err"]
+        if got != body[:len(got)]:
+            v("C08/delivery/reordered-or-corrupt/client-connection", f"read {got[:24]!r}…, sent {body[:24]!r}…")
+        if st["err"] is None:
+            if st["done"] and got != body:
+                v("C08/eof/reported-before-all-data/client-connection", f"reader finished with {len(got)} of {case['total']} bytes")
+            elif not st["done"] and sent[0] >= wtotal and (not eof_framed or closed[0]):
+                v("C08/eof/never-reported/client-connection", f"all {wtotal} wire bytes delivered, reader has {len(got)} of {case['total']} and is still waiting")
+        if task is not None and not task.done():
+            task.cancel()
+        if not closed[0]:
+            proto.connection_lost(None)
+        await asyncio.sleep(0)
+
+    loop = asyncio.new_event_loop()
+    try:
+        asyncio.set_event_loop(loop)
+        loop.run_until_complete(asyncio.wait_for(main(), 30))
+    except asyncio.TimeoutError:
+        v("C08/client-connection/scenario-timeout", "scenario did not finish in 30 s")
+    finally:
+        try:
+            pend = [t for t in asyncio.all_tasks(loop) if not t.done()]
+            for t in pend:
+                t.cancel()
+            if pend:
+                loop.run_until_complete(asyncio.gather(*pend, return_exceptions=True))
+        except BaseException:  # noqa
+            pass
+        asyncio.set_event_loop(None)
+        loop.close()
+    return viol, info
